@@ -405,8 +405,10 @@ where
                 matrix_set(&mut matrix, i, j, v);
             }
 
-            let squared_norm_t = squared_norm(point_coords);
-            matrix_set(&mut matrix, i, D, safe_scalar_to_f64(squared_norm_t)?);
+            // Lift in f64, like every other matrix entry: a squared norm computed in a narrower
+            // `T` (f32) is rounded to T's precision and can flip the sign of the determinant.
+            let squared_norm_f64 = squared_norm(&point_coords_f64);
+            matrix_set(&mut matrix, i, D, safe_scalar_to_f64(squared_norm_f64)?);
             matrix_set(&mut matrix, i, D + 1, 1.0);
         }
 
@@ -416,12 +418,12 @@ where
             matrix_set(&mut matrix, D + 1, j, v);
         }
 
-        let test_squared_norm_t = squared_norm(test_point_coords);
+        let test_squared_norm_f64 = squared_norm(&test_point_coords_f64);
         matrix_set(
             &mut matrix,
             D + 1,
             D,
-            safe_scalar_to_f64(test_squared_norm_t)?,
+            safe_scalar_to_f64(test_squared_norm_f64)?,
         );
         matrix_set(&mut matrix, D + 1, D + 1, 1.0);
 
@@ -584,9 +586,9 @@ where
                 matrix_set(&mut matrix, row, j, v);
             }
 
-            // Calculate squared norm using generic arithmetic on T
-            let squared_norm_t = squared_norm(&relative_coords_t);
-            let squared_norm_f64: f64 = safe_scalar_to_f64(squared_norm_t)
+            // Squared norm in f64 (a norm computed in a narrower `T` would be rounded to T's
+            // precision and can flip the sign of the determinant)
+            let squared_norm_f64: f64 = safe_scalar_to_f64(squared_norm(&relative_coords_f64))
                 .map_err(|e| CellValidationError::CoordinateConversion { source: e })?;
 
             // Add squared norm to the last column
@@ -614,10 +616,10 @@ where
             matrix_set(&mut matrix, D, j, v);
         }
 
-        // Calculate squared norm using generic arithmetic on T
-        let test_squared_norm_t = squared_norm(&test_relative_coords_t);
-        let test_squared_norm_f64: f64 = safe_scalar_to_f64(test_squared_norm_t)
-            .map_err(|e| CellValidationError::CoordinateConversion { source: e })?;
+        // Squared norm in f64 (see above)
+        let test_squared_norm_f64: f64 =
+            safe_scalar_to_f64(squared_norm(&test_relative_coords_f64))
+                .map_err(|e| CellValidationError::CoordinateConversion { source: e })?;
 
         // Add squared norm to the last column
         matrix_set(&mut matrix, D, D, test_squared_norm_f64);
